@@ -7,6 +7,12 @@ import (
 
 func DecodeSecret(secret string) ([]byte, error) {
 	secret = strings.TrimSpace(secret)
+	for i := 0; i < len(secret); i++ {
+		c := secret[i]
+		if !(c >= 'A' && c <= 'Z' || c >= 'a' && c <= 'z' || c >= '2' && c <= '7' || c == '=') {
+			return nil, base32.CorruptInputError(i)
+		}
+	}
 	if n := len(secret) % 8; n != 0 {
 		secret = secret + strings.Repeat("=", 8-n)
 	}
